@@ -600,7 +600,20 @@ func c04StreamProgress(c *core.Ctx, fn *ssa.Function) {
 	hi, lo := family(high), family(low)
 	isPending := func(v ssa.Value) bool {
 		b, ok := core.StripConv(v).(*ssa.BinOp)
-		return ok && b.Op == token.SUB && hi[core.Resolve(core.StripConv(b.X))] && lo[core.Resolve(core.StripConv(b.Y))] && !lo[core.Resolve(core.StripConv(b.X))]
+		if !ok || b.Op != token.SUB {
+			return false
+		}
+		if hi[core.Resolve(core.StripConv(b.X))] && lo[core.Resolve(core.StripConv(b.Y))] && !lo[core.Resolve(core.StripConv(b.X))] {
+			return true
+		}
+		// the same quantity seen from a worker that was handed buf[low:high] and walks it
+		// with a cursor of its own: len(pending) - cursor
+		if l, isLen := core.LenOf(b.X); isLen {
+			if sl, isSl := core.Resolve(l).(*ssa.Slice); isSl && sl.Low != nil && sl.High != nil {
+				return lo[core.Resolve(core.StripConv(sl.Low))] && hi[core.Resolve(core.StripConv(sl.High))]
+			}
+		}
+		return false
 	}
 	// unconditional compaction on every iteration of the receive loop?
 	outer := enclosingLoops(cp.Block())
